@@ -45,15 +45,15 @@ class Alloc(Harness):
     name = 'alloc'
     modules = (F, )
     functions = (F + ':doWF', )
-    bounds = 'N channels: 1..4 (quick), 1..6 (thorough); all positive reals'
+    bounds = 'N channels: 1..4 (quick), 1..5 (thorough); all positive reals'
     stubs = ('np.zeros -> object array of exact zeros',
              'float() -> identity on symbolic reals')
-    outside = ('N > 6', 'floating-point rounding',
+    outside = ('N > 5 (N = 6 did not finish in an hour)', 'floating-point rounding',
                'optimality itself (KKT step is trusted)')
     unit_wall_s = {'quick': 240, 'thorough': 3000}
 
     def configs(self, tier):
-        ns = [1, 2, 3, 4] if tier == 'quick' else [1, 2, 3, 4, 5, 6]
+        ns = [1, 2, 3, 4] if tier == 'quick' else [1, 2, 3, 4, 5]
         return [dict(N=n) for n in ns]
 
     def _inputs(self, ctx, N):
@@ -180,7 +180,7 @@ HARNESSES = [Alloc(), Perm()]
 MANIFEST = dict(
     category='model_checking',
     text='Bounded symbolic model checking of the real doWF: for N<=4 (quick) / '
-    'N<=6 (thorough) channels every ordering/switch-off path is explored and '
+    'N<=5 (thorough) channels every ordering/switch-off path is explored and '
     'z3 (QF_NRA over exact rationals) proves non-negativity, the power sum, '
     'the water-filling form for the returned level and permutation '
     'equivariance for ALL positive gains/power/noise/energy on that path; '
